@@ -1,11 +1,11 @@
 ------------------------------ MODULE X04_Trace ------------------------------
 (* Trace validation of the column store of PedigreeDPTable ("P") and GenotypeDPTable ("G") against the
-   contract of Checkpoint.tla.  One line per event logged by the hook WHATSHAP_VERIF_DPTRACE
+   contract of ColumnStore.tla.  One line per event logged by the hook WHATSHAP_VERIF_DPTRACE
        begin | compute c | bcompute c | fcompute c | read c | free c | end        (tbl, col, n = columns)
    plus   Result  (the driver's own observation after the run: schedule compared with the model's)
    The abstract store is carried along; every event must be a step the contract allows. *)
 EXTENDS Naturals, FiniteSets, Sequences, Json, IOUtils, TLC
-CK == INSTANCE Checkpoint WITH MaxN <- 0, Variant <- "code", tbl <- "", N <- 0, pc <- "", i <- 0, j <- 0,
+CK == INSTANCE ColumnStore WITH MaxN <- 0, Variant <- "code", tbl <- "", N <- 0, pc <- "", i <- 0, j <- 0,
                                stored <- {}, cnt <- <<>>, reads <- <<>>, hist <- <<>>, bad <- ""
 Trace == ndJsonDeserialize(IOEnv.TRACE_FILE)
 VARIABLES l, open, n, stored, cnt, nreads, nf
